@@ -36,25 +36,53 @@ def _case(i, seed, opts, shapes):
   # every other document keeps keys / names / class names free of metacharacters, so that the positions
   # of string values, tooltips and documentation are validated to the end of the document even while
   # the key-escaping findings are open (a rejected trace is not examined past the rejected event)
-  return o, sh, c, _TCN[(i // 2) % 4], _PLAIN[(i // 2) % 4]
+  return o, sh, c, _TCN[(i // 2) % 4], _PLAIN[(i // 2) % 4], (_HIST[(i // 3) % len(_HIST)] if _HIST and i % 3 == 0 else ())
 
 
+_HIST = []     # filled from HtmlGen.Histories by run()
 _PLAIN = [(), ('key', 'name', 'classname'), ('key',), ('key', 'name', 'classname')]
 _TCN = [True, False, True, False]      # whether the class of 'obj' shapes gets a tainted __name__
 
 
-def _render(i, o, sh, c, tcn, plain=()):
+def _in_thread(fn):
+  """Runs fn on a fresh thread (fresh thread-local option stacks) and returns its result / re-raises."""
+  import threading   # pylint: disable=import-outside-toplevel
+  box = {}
+
+  def run():
+    try:
+      box['r'] = fn()
+    except BaseException as e:   # pylint: disable=broad-except
+      box['e'] = e
+  th = threading.Thread(target=run)
+  th.start()
+  th.join()
+  if 'e' in box:
+    raise box['e']
+  return box['r']
+
+
+def _render(i, o, sh, c, tcn, plain=(), history=()):
   import pyglove as pg          # pylint: disable=import-outside-toplevel
   from pgverif import htmldoc   # pylint: disable=import-outside-toplevel
   b = htmldoc.Builder(c, taint_class_name=tcn, plain_roles=plain)
   v = b.build(sh)
-  kw, excl = htmldoc.render_kwargs(o, v, b)
+  _, excl = htmldoc.render_kwargs(o, v, b)
   before = htmldoc.snapshot(v)
-  doc = pg.to_html_str(v, **kw)
+
+  def with_history():
+    ends = [htmldoc.run_fault(f, v) for f in history]
+    kw, _ = htmldoc.render_kwargs(o, v, b)        # fresh one-shot iterables for every rendering
+    return ends, kw, pg.to_html_str(v, **kw)
+  fault_ends, kw, doc = _in_thread(with_history)
   after = htmldoc.snapshot(v)
+  fresh = None
+  if history:
+    fresh = _in_thread(lambda: pg.to_html_str(v, **htmldoc.render_kwargs(o, v, b)[0]))
   evs, texts = htmldoc.events(doc, b.data)
   return dict(i=i, b=b, v=v, kw=kw, excl=excl, doc=doc, evs=evs, texts=texts, modified=before != after,
-              shape=sh, opts=o)
+              shape=sh, opts=o, history=list(history), fault_ends=fault_ends,
+              history_differs=(fresh is not None and fresh != doc))
 
 
 def _render_control(i, rec, c):
@@ -82,10 +110,18 @@ def _judge(chk, cases, r):
     chk.traces += 1
     chk.evaluations += len(evs)
     chk.distinct_case((cs['shape'], sorted(cs['opts'].items()), b.cls_name))
-    detail = {'case': i, 'shape': cs['shape'], 'options': cs['opts'], 'class': b.cls_name, 'seed': chk.seed,
+    detail = {'history': cs.get('history', []), 'case': i, 'shape': cs['shape'], 'options': cs['opts'], 'class': b.cls_name, 'seed': chk.seed,
               'kwargs': {k: repr(v) for k, v in cs['kw'].items()}}
     if cs['modified']:
-      chk.violation({'clause': 'mutation'}, dict(detail, what='pg.to_json(value) changed by rendering'))
+      chk.violation({'clause': 'mutation'}, dict(detail, what='the value was changed by rendering'))
+    if cs.get('history'):
+      chk.count('documents_rendered_after_a_failed_rendering')
+      for f, e in zip(cs['history'], cs['fault_ends']):
+        chk.count(f'fault:{f}:{"raised" if e != "completed" else "completed"}')
+      if cs['history_differs']:
+        chk.violation({'clause': 'history', 'after': '+'.join(sorted(set(cs['history'])))},
+                      dict(detail, history=cs['history'], fault_ends=cs['fault_ends'],
+                           what='the document differs from its rendering on a fresh thread'))
     if i in rejected:
       k = rejected[i]
       ev = evs[k]
@@ -134,17 +170,18 @@ def run(chk):
   gen, rg = tlc.export_json('HtmlGen', 'C20_gen_thorough.cfg' if thorough else 'C20_gen_quick.cfg', timeout=600)
   chk.add_tlc(rg)
   opts, shapes = gen['options'], gen['shapes']
+  _HIST[:] = [tuple(h) for h in sorted(gen['histories']) if h]
   chk.notes['universe'] = {'option_combinations': len(opts), 'shapes': len(shapes), 'classes': len(htmldoc.CLASSES)}
-  n = 8000 if thorough else 2700
+  n = 10000 if thorough else 3900
   batch = 1000
   seen_opts = set()
   for start in range(0, n, batch):
     cases = []
     for i in range(start, min(n, start + batch)):
-      o, sh, c, tcn, plain = _case(i, chk.seed, opts, shapes)
+      o, sh, c, tcn, plain, hist = _case(i, chk.seed, opts, shapes)
       seen_opts.add(json.dumps(o, sort_keys=True))
       try:
-        cases.append(_render(i, o, sh, c, tcn, plain))
+        cases.append(_render(i, o, sh, c, tcn, plain, hist))
       except Exception as e:   # pylint: disable=broad-except
         chk.violation({'clause': 'render_raises', 'error': type(e).__name__},
                       {'case': i, 'shape': sh, 'options': o, 'error': str(e)[:300]})
@@ -198,6 +235,9 @@ def run(chk):
   chk.require(rej == set(bad) - {'good'}, f'automaton self-test: rejected {sorted(rej)}')
   chk.require(chk.counters.get('accepted_traces', 0) > 50, 'vacuous: almost no accepted trace')
   chk.require(chk.counters.get('presence_checks', 0) > 100, 'vacuous: no presence checks')
+  chk.require(chk.counters.get('documents_rendered_after_a_failed_rendering', 0) > 100, 'vacuous: no histories')
+  for f in ('fail_repr', 'fail_view_id', 'fail_in_scope', 'fail_extension'):
+    chk.require(chk.counters.get(f'fault:{f}:raised', 0) > 0, f'vacuous: fault {f} never raised')
   chk.require(chk.counters.get('accepted_traces_with_metacharacters', 0) > 100,
               'vacuous: hardly any document with metacharacters was validated to its end')
   chk.require(chk.counters.get('tainted_text_tokens_validated', 0) > 500, 'vacuous: no tainted text validated')
@@ -211,7 +251,8 @@ def replay(chk, path):
   if isinstance(d['shape'], dict):        # a control record
     cs = _render_control(d['case'], d['shape'], c)
   else:
-    cs = _render(d['case'], d['options'], d['shape'], c, _TCN[(d['case'] // 2) % 4], _PLAIN[(d['case'] // 2) % 4])
+    cs = _render(d['case'], d['options'], d['shape'], c, _TCN[(d['case'] // 2) % 4], _PLAIN[(d['case'] // 2) % 4],
+                 tuple(d.get('history', ())))
   traces = [{'id': cs['i'], 'ev': htmldoc.for_tlc(cs['evs'])}]
   r = tlc.check_with_json('HtmlDoc', 'C20_trace.cfg', traces, var='TRACE_FILE', ndjson=True, workers=1,
                           name='C20-replay', timeout=300)
